@@ -1076,6 +1076,10 @@ func scenC02App(run *vlab.Run, sx, tmp string) {
 			if i/8%2 == 1 && kind != "docker" {
 				env = append(env, "ALL_PROXY="+p, "all_proxy="+p)
 			}
+			if kind == "docker" {
+				// the variables of the docker CLI: they describe the user's own daemon, not the hosts to scan
+				env = append(env, fmt.Sprintf("DOCKER_HOST=tcp://%s:%d", outsider, oport), "DOCKER_API_VERSION=1.40")
+			}
 		}
 		run.Case(fmt.Sprintf("c02app%03d", i), map[string]interface{}{"argv": args, "mode": mode, "status": status, "outsider": outsider, "env": env})
 		res := RunCase(sx, &CaseSpec{Args: args, Env: env, Sniff: []string{"lo"}, Timeout: 120 * time.Second, Setup: func(w *World) {
